@@ -4,7 +4,7 @@
    stream id after the completed imports h, with referenced tags valued by rho (query evaluation,
    internal/query + internal/index/search.go, properties C02/C03/C04). *)
 From Coq Require Import List NArith Bool.
-From Pk Require Import Tags TagsC16 TagsC06.
+From Pk Require Import Tags TagsC16 TagsC06 TagsC06V.
 Import ListNotations.
 Open Scope N_scope.
 
@@ -44,6 +44,47 @@ Proof.
   apply (sinv_decided truth st n t); try assumption.
   apply (sinv_run truth E1 E2 k l (init cs) K H). apply sinv_init.
 Qed.
+
+(* ---- what a user sees (theories/TagsC06V.v).  `search h ts q id` is index.SearchStreams on a view's snapshot (indexes
+   after the imports h, tagDetails ts) for a query or tag definition q.  C02's inlining theorem enters BY STATEMENT as
+   the hypothesis search_inlines: the search evaluates q with every tag filter replaced by Matches where the tag is
+   decided and by its (recursively inlined) definition where it is not (view_val), provided no absolute-time
+   condition occurs in q or in an inlined definition -- the known finding C06 view-time-reftime is exactly the failure
+   of this proviso in the code. *)
+Definition search_inlines (truth : list iresp -> defn -> (N -> N -> bool) -> N -> bool)
+           (search : list iresp -> tags_t -> defn -> N -> bool) (notime : defn -> Prop) : Prop :=
+  forall h ts q id, notime q -> all_notime notime ts -> search h ts q id = truth h q (view_val truth h ts) id.
+
+(* a search with tag / service / mark / generated filters issued in any reachable state returns exactly the streams
+   on which the query holds with every tag at its truth, although tags may be undecided at that moment *)
+Theorem C06_search_with_tag_filters_is_truth :
+  forall truth search notime, env_ext truth -> env_local truth -> search_inlines truth search notime ->
+  forall k l cs, repaired_c06 k -> acts_ok_all truth k (init cs) l ->
+  let st := run k l (init cs) in
+  forall q id, notime q -> all_notime notime (tags st) -> id < next st ->
+  search (hist st) (tags st) q id = truth (hist st) q (tv truth (hist st) (tags st)) id.
+Proof.
+  intros truth search notime E1 E2 HS k l cs K H st q id NQ NT Hid.
+  pose proof (sinv_run truth E1 E2 k l (init cs) K H (sinv_init truth cs)) as (HI & Hn & _). fold st in HI, Hn.
+  apply (search_is_truth truth E1 search notime HS (hist st) (next st) (tags st) q id); auto.
+Qed.
+
+(* View.AllStreams / SearchStreams with PrefetchAllTags, then StreamContext.HasTag (and AllTags, which filters the
+   tags by HasTag): the tags shown for a stream are the truth at the moment the view was taken *)
+Theorem C06_view_hastag_is_truth :
+  forall truth search notime, env_ext truth -> env_local truth -> search_inlines truth search notime ->
+  forall k l cs, repaired_c06 k -> acts_ok_all truth k (init cs) l ->
+  let st := run k l (init cs) in
+  all_notime notime (tags st) ->
+  forall n id, id < next st -> (exists t, tget n (tags st) = Some t) ->
+  has_tag (prefetch search (hist st) (next st) (tags st)) n id = tv truth (hist st) (tags st) n id.
+Proof.
+  intros truth search notime E1 E2 HS k l cs K H st NT n id Hid T.
+  pose proof (sinv_run truth E1 E2 k l (init cs) K H (sinv_init truth cs)) as (HI & Hn & _). fold st in HI, Hn.
+  apply (has_tag_is_truth truth E1 search notime HS (hist st) (next st) (tags st) n id); auto.
+Qed.
+(* not modelled: prefetchTags for a subset of tags / of streams (the web UI prefetches the tags of the result page
+   only), grouping, sorting and limits of SearchStreams (C02). *)
 
 (* The unrepaired code violated it.  Witness 1 (edb657b; corpus/C06/lost-inherited-invalidation.json): tag/a =
    `mark:m sport:4321` is being evaluated against mark/m = {0}; stream 1 is marked; the job publishes
